@@ -18,6 +18,7 @@ import (
 	"strconv"
 	"strings"
 	"testing"
+	"time"
 
 	"go.opentelemetry.io/collector/component"
 	"go.opentelemetry.io/collector/component/componenttest"
@@ -158,6 +159,11 @@ type vWorld struct {
 	// routing must not change (every next consumer is still called once: fan-out law, property C06)
 	failConsume map[string]bool
 	consumeErrs int
+	// the context of the injected payload as a dimension: routing must not depend on it
+	mutExp   map[string]bool // exporter keys that declare MutatesData
+	cancel   context.CancelFunc
+	cancelAt int // cancel the payload's context at the cancelAt-th Consume call of the injection (0 = never)
+	ticks    int
 	// failCreate: receiver / exporter / connector instance keys whose factory returns an error (Build fails in buildComponents,
 	// after other components were already created)
 	failCreate map[string]bool
@@ -166,7 +172,7 @@ type vWorld struct {
 
 func newVWorld() *vWorld {
 	return &vWorld{creates: map[string]int{}, recvNext: map[string]any{}, failStart: map[string]bool{}, failStop: map[string]bool{},
-		connCfg: map[int]vConnCfg{}, failConsume: map[string]bool{}, failCreate: map[string]bool{}}
+		connCfg: map[int]vConnCfg{}, failConsume: map[string]bool{}, failCreate: map[string]bool{}, mutExp: map[string]bool{}}
 }
 
 type vNode struct {
@@ -194,8 +200,9 @@ func (n *vNode) Shutdown(context.Context) error {
 	return nil
 }
 
+// processors mutate; so do the exporters chosen per case (mutExp): a fan-out then has mutating consumers in non-last positions
 func (n *vNode) Capabilities() consumer.Capabilities {
-	return consumer.Capabilities{MutatesData: n.kind == 'p'}
+	return consumer.Capabilities{MutatesData: n.kind == 'p' || n.w.mutExp[n.label]}
 }
 
 func vAppend(trail, label string) string {
@@ -281,6 +288,14 @@ func (n *vNode) handle(ctx context.Context, trail string) error {
 	return fmt.Errorf("unexpected kind %c", n.kind)
 }
 
+// tick: one Consume call happened; the payload's context is cancelled by "a component" when the chosen call is reached
+func (w *vWorld) tick() {
+	w.ticks++
+	if w.cancelAt > 0 && w.ticks == w.cancelAt && w.cancel != nil {
+		w.cancel()
+	}
+}
+
 func (n *vNode) consumeErr() error {
 	if n.w.failConsume[n.label] {
 		n.w.consumeErrs++
@@ -290,6 +305,7 @@ func (n *vNode) consumeErr() error {
 }
 
 func (n *vNode) ConsumeTraces(ctx context.Context, d ptrace.Traces) error {
+	n.w.tick()
 	a := d.ResourceSpans().At(0).Resource().Attributes()
 	v, _ := a.Get("trail")
 	if n.kind == 'p' { // processors mutate in place (MutatesData=true) and pass the same payload on
@@ -300,6 +316,7 @@ func (n *vNode) ConsumeTraces(ctx context.Context, d ptrace.Traces) error {
 }
 
 func (n *vNode) ConsumeMetrics(ctx context.Context, d pmetric.Metrics) error {
+	n.w.tick()
 	a := d.ResourceMetrics().At(0).Resource().Attributes()
 	v, _ := a.Get("trail")
 	if n.kind == 'p' {
@@ -310,6 +327,7 @@ func (n *vNode) ConsumeMetrics(ctx context.Context, d pmetric.Metrics) error {
 }
 
 func (n *vNode) ConsumeLogs(ctx context.Context, d plog.Logs) error {
+	n.w.tick()
 	a := d.ResourceLogs().At(0).Resource().Attributes()
 	v, _ := a.Get("trail")
 	if n.kind == 'p' {
@@ -320,6 +338,7 @@ func (n *vNode) ConsumeLogs(ctx context.Context, d plog.Logs) error {
 }
 
 func (n *vNode) ConsumeProfiles(ctx context.Context, d pprofile.Profiles) error {
+	n.w.tick()
 	a := d.ResourceProfiles().At(0).Resource().Attributes()
 	v, _ := a.Get("trail")
 	if n.kind == 'p' {
@@ -965,6 +984,14 @@ func TestVerifC09Graph(t *testing.T) {
 			out.Flush()
 			continue
 		}
+		// 30% of the plain exporters declare MutatesData (decided before Build: the fan-outs read Capabilities when they are built)
+		for _, p := range cfg.pipes {
+			for _, x := range p.exps {
+				if rnd.IntN(10) < 3 {
+					w.mutExp[fmt.Sprintf("e%d:%d", x, p.sig)] = true
+				}
+			}
+		}
 		// 5%: one receiver / exporter factory call fails (a key the configuration uses); Build must return the error
 		if c >= len(corpus) && rnd.IntN(20) == 0 {
 			p := cfg.pipes[rnd.IntN(len(cfg.pipes))]
@@ -1071,6 +1098,27 @@ func TestVerifC09Graph(t *testing.T) {
 				var id, sig int
 				fmt.Sscanf(k, "r%d:%d", &id, &sig)
 				w.delivered = nil
+				// the payload's context: live (40%), already cancelled (20%), deadline expired (20%), cancelled by a component at the
+				// k-th Consume call of this injection (20%). Routing must not depend on it: the route multiset is diffed as it is.
+				ctx, mode := context.Background(), "live"
+				w.cancel, w.cancelAt, w.ticks = nil, 0, 0
+				var release context.CancelFunc = func() {}
+				switch m := rnd.IntN(10); {
+				case m < 4:
+				case m < 6:
+					ctx, release = context.WithCancel(ctx)
+					release()
+					mode = "cancelled"
+				case m < 8:
+					ctx, release = context.WithDeadline(ctx, time.Unix(1, 0))
+					mode = "expired"
+				default:
+					ctx, release = context.WithCancel(ctx)
+					w.cancel, w.cancelAt = release, 1+rnd.IntN(5)
+					mode = fmt.Sprintf("cancel-at-%d", w.cancelAt)
+				}
+				out.Linef("op ctx %s", mode)
+				out.Linef("stat ctx_%s 1", strings.SplitN(mode, "-at-", 2)[0])
 				out.Linef("op inject %d %d", sig, id)
 				func() {
 					defer func() {
@@ -1078,10 +1126,11 @@ func TestVerifC09Graph(t *testing.T) {
 							w.delivered = append(w.delivered, fmt.Sprintf("panic|%s", vHex(fmt.Sprint(r))))
 						}
 					}()
-					if e := vSend(context.Background(), w.recvNext[k], sig, ""); e != nil && !strings.Contains(e.Error(), "verif consume failure") {
+					if e := vSend(ctx, w.recvNext[k], sig, ""); e != nil && !strings.Contains(e.Error(), "verif consume failure") {
 						w.delivered = append(w.delivered, "error|"+vHex(e.Error()))
 					}
 				}()
+				release()
 				sort.Strings(w.delivered)
 				out.Linef("obs route %d %s", len(w.delivered), strings.Join(w.delivered, " "))
 				deliveries += len(w.delivered)
